@@ -694,7 +694,14 @@ def run_property(prop, tier, seed, only=None, list_only=False, jobs=10, write_ev
     if extra:
         for fn in extra:
             ev = fn(prop, tier, seed)
-            extra_ev[ev['engine']] = ev
+            if ev['engine'] in extra_ev:
+                # two parts of the same engine (e.g. engine M: print arm + string filters): keep both coverages
+                prev = extra_ev[ev['engine']]
+                pc = prev.get('coverage', {})
+                parts = pc['parts'] if list(pc.keys()) == ['parts'] else [pc]
+                prev['coverage'] = dict(parts=parts + [ev.get('coverage', {})])
+            else:
+                extra_ev[ev['engine']] = ev
             for v in ev.get('violations', []):
                 violations.append(v)
             for k in ev.get('known_hits', []):
